@@ -389,6 +389,15 @@ pub fn replay_dir() -> String {
 pub fn write_replay(id: &str, verif_seed: u64, file: &J) -> String {
     let dir = format!("{}/{}", replay_dir(), id);
     let _ = std::fs::create_dir_all(&dir);
+    // a case found on another build profile than the default one must be replayed on that build
+    let tagged;
+    let file = match std::env::var("VERIF_PROFILE") {
+        Ok(p) if !p.is_empty() && file.get("profile").is_none() => {
+            tagged = file.clone().set("profile", p.as_str());
+            &tagged
+        }
+        _ => file,
+    };
     let body = file.pretty();
     let h = fnv1a(FNV_INIT, body.as_bytes());
     let path = format!("{dir}/{verif_seed}-{h:016x}.json");
